@@ -191,6 +191,12 @@ package stream
 // only while the node runs, under the node's lock, and only if the nack window still
 // permits it; an exceeded threshold (DLQ enabled) is a fatal error; a failed write
 // marks the node broken.
+//verif:func (*DLQHandlerNode).Ack(n, msg)
+//verif:assume n.window != nil && winInv(n.window) because "Run builds the window with newDLQWindow (proved to establish winInv) before the node state becomes running; only dlqWindow's own methods (proved to preserve winInv) write it, under n.m"
+//verif:ensures[inv] winInv(n.window)
+//verif:call[window-under-lock-while-running] (*dlqWindow).Ack requires called("(*Mutex).Lock") && !called("(*Mutex).Unlock") && succeeded("(*ValueWatcher).Watch")
+//verif:ensures[lock-released] called("(*Mutex).Lock") ==> called("(*Mutex).Unlock")
+
 //verif:func (*DLQHandlerNode).Nack(n, msg, nackMetadata) (err)
 //verif:assume n.window != nil && winInv(n.window) because "Run builds the window with newDLQWindow (proved to establish winInv) before the node state becomes running; only dlqWindow's own methods (proved to preserve winInv) write it, under n.m"
 //verif:assume nackMetadata.Reason != nil because "Message.Nack is called with the error that caused the nack (dlqRecord would panic on a nil reason)"
